@@ -20,7 +20,8 @@ ASSUME = [
     "UDP relay (RouteUDP) is specified in DatagramPipe / C14, not here",
 ]
 KEYS = {"relay-bytes-wrong", "relay-bytes-missing", "relay-crosstalk", "relay-orphan-conn", "relay-closed-session-reused",
-        "relay-neighbour-closed", "relay-singleplex-shared", "relay-session-surplus"}
+        "relay-neighbour-closed", "relay-singleplex-shared", "relay-session-surplus", "relay-udp-orphan-stream",
+        "relay-first-bytes-lost:session-idled-out-before-first-read"}
 INV = "TypeOK PrefixInv NoCrossTalk CompleteInv NeighbourInv OrphanInv IdleArmedInv RenewInv SingleInv"
 RULE = ("behaviours of RelayGen (environment steps: local/proxy application dial, write, read, close, reset; one frame delivered on the gated "
         "tunnel connection; tunnel reset; proxy dial armed to fail; 15 s of virtual time) - BFS for 1 connection, TLC -simulate for 2-3 "
@@ -37,7 +38,12 @@ def q(s):
     return ",".join('"%s"' % x for x in s.split(",") if x)
 
 
-def C(nconn=1, up=1, down=1, single=False, maxsess=2, sto=1, feat="", dev="", inv=INV):
+CODE_FAITHFUL = "SessionChosenAtAccept"      # named deviation flags that ARE the code (known finding D23)
+
+
+def C(nconn=1, up=1, down=1, single=False, maxsess=2, sto=1, feat="", dev="", inv=INV, ideal=False):
+    """constants of a Relay configuration; every configuration models the code as it is (CODE_FAITHFUL flags on) unless ideal"""
+    dev = ",".join(x for x in (("" if ideal else CODE_FAITHFUL), dev) if x)
     return {"NCONN": nconn, "MAXUP": up, "MAXDOWN": down, "SINGLE": "TRUE" if single else "FALSE", "MAXSESS": maxsess,
             "STO": sto, "FEAT": q(feat), "DEV": q(dev), "INV": inv}
 
@@ -59,15 +65,22 @@ NEGATIVES = [
     ("single_noclose", C(single=True, dev="SingleNoClose", inv="SingleInv"), "SingleInv"),
     # reachability witnesses of the named deviations
     ("reach_firstwritefail", C(feat="async,fail,dialfail", inv="W_FirstWriteFail"), "W_FirstWriteFail"),
-    ("reach_stale", C(feat="time", inv="W_Stale"), "W_Stale"),
+    # D23: with the code-faithful flag SessionChosenAtAccept the first bytes of a silent connection are refused
+    ("firstbytes_session_chosen_at_accept", C(feat="time", inv="FirstBytesInv"), "FirstBytesInv"),
     ("reach_cut", C(inv="W_Cut"), "W_Cut"),
     ("reach_latedial", C(feat="async,fail", inv="W_LateDial"), "W_LateDial"),
 ]
-# holds once the deviation DialFailKillsSession is idealised away (shows NeighbourStrict is the right statement of it)
-POSITIVE_DEV = [("dialfail_streamonly", C(nconn=2, feat="prio,dialfail", dev="DialFailStreamOnly", inv=INV + " NeighbourStrict"))]
+# hold once a deviation is idealised away (shows the strict invariant is the right statement of the deviation):
+# DialFailKillsSession -> NeighbourStrict; SessionChosenAtAccept (D23) -> FirstBytesInv with every other invariant
+POSITIVE_QUICK = [("ideal_firstbytes_1c", C(feat="time,async", inv=INV + " FirstBytesInv", ideal=True))]
+POSITIVE_DEV = POSITIVE_QUICK + [
+    ("dialfail_streamonly", C(nconn=2, feat="prio,dialfail", dev="DialFailStreamOnly", inv=INV + " NeighbourStrict")),
+    ("ideal_firstbytes_2c", C(nconn=2, maxsess=4, feat="prio,fail,time", inv=INV + " FirstBytesInv", ideal=True)),
+    ("ideal_firstbytes_2c_single", C(nconn=2, maxsess=4, single=True, feat="prio,time", inv=INV + " FirstBytesInv", ideal=True)),
+]
 
 
-UINV = "NoCross OrderInv TableSound QuiesceInv RenewInv SingleInv"
+UINV = "NoCross OrderInv TableSound QuiesceInv RenewInv SingleInv NoOrphan AtMostOne"
 
 
 def CU(src="1,2", data=2, streams=3, sess=2, reply=1, single=False, dev="", inv=UINV):
@@ -79,15 +92,15 @@ def CU(src="1,2", data=2, streams=3, sess=2, reply=1, single=False, dev="", inv=
 UDP_RUNS_QUICK = [
     ("udp_1src", CU(src="1", data=3, streams=3), None),
     ("udp_single", CU(src="1", data=3, streams=3, single=True, sess=3), None),
-    ("udp_neg_orphan_as_is", CU(inv="NoOrphan"), "NoOrphan"),                     # DEVIATION StaleDelete
-    ("udp_neg_atmostone_as_is", CU(src="1", data=3, inv="AtMostOne"), "AtMostOne"),
+    # defect D22 (repaired in /repo 5369de6): deletion by key; the 11-step counter-example is the witness
+    ("udp_neg_orphan_deletebykey", CU(dev="DeleteByKey", inv="NoOrphan"), "NoOrphan"),
+    ("udp_neg_atmostone_deletebykey", CU(src="1", data=3, dev="DeleteByKey", inv="AtMostOne"), "AtMostOne"),
     ("udp_neg_sharedaddr", CU(dev="SharedAddr", inv="NoCross"), "NoCross"),
     ("udp_neg_nodelete", CU(dev="NoDelete", inv="TableSound QuiesceInv"), "TableSound"),
 ]
 UDP_RUNS_THOROUGH = UDP_RUNS_QUICK + [
     ("udp_2src", CU(), None),
     ("udp_2src_single", CU(single=True, sess=3), None),
-    ("udp_2src_byidentity", CU(dev="DeleteByIdentity", inv=UINV + " NoOrphan AtMostOne"), None),
 ]
 
 
@@ -152,7 +165,7 @@ SCENARIOS = [
      "LocalDial1 LocalWrite1 Deliver1s ProxyRead1 ArmDialFail LocalDial2 LocalWrite2 Deliver1s Deliver1c",
      lambda o: o["lrel"][0] == "closed" and o["lapp"][0] == "open" and o["papp"][0] == "open" and o["kill"][0] == "dial",
      "the proxy dial for the stream of connection 2 fails: serveSession closes the whole session, the healthy connection 1 is closed with it"),
-    ("StaleSessionCapture", False, 3,
+    ("SessionChosenAtAccept", False, 3,
      "LocalDial1 Advance Advance LocalWrite1",
      lambda o: o["lrel"][0] == "closed" and o["gotUp"][0] == [] and o["nsess"] == 1 and o["kill"][0] == "idle",
      "a local connection that sends its first bytes 30 s after it was accepted: its session has idled out, OpenStream fails, the connection is dropped"),
@@ -234,7 +247,7 @@ def tlc_gen(ctx, tag, cfg, sim):
 
 
 # the quick tier runs one negative configuration per invariant; the thorough tier all of them
-QUICK_NEG = {"prefix_reorder", "crosstalk_wrongstream", "complete_strict_refuted", "neighbour_closeonzero", "neighbour_strict_refuted",
+QUICK_NEG = {"firstbytes_session_chosen_at_accept", "prefix_reorder", "crosstalk_wrongstream", "complete_strict_refuted", "neighbour_closeonzero", "neighbour_strict_refuted",
              "orphan_downcopy", "idle_norearm", "renew_noclosedcheck", "single_shared", "reach_firstwritefail"}
 
 
@@ -253,8 +266,8 @@ def model_check(ctx, quick):
     for tag, cfg, inv in (UDP_RUNS_QUICK if quick else UDP_RUNS_THOROUGH):
         jobs.append(("neg" if inv else "mc", tag, inv, pool.submit(lib.run_tlc, ctx, "RelayUDP", "RelayUDP_mc.cfg", cfg, tag=tag, timeout=1800,
                                                                    workers=4, expect_violation=bool(inv), env=JVM_SHORT if inv else JVM_LONG)))
-    if not quick:
-        for tag, cfg in POSITIVE_DEV:
+    if True:
+        for tag, cfg in (POSITIVE_QUICK if quick else POSITIVE_DEV):
             jobs.append(("mc", tag, None, pool.submit(lib.run_tlc, ctx, "Relay", "Relay_mc.cfg", cfg, tag="mc_" + tag, timeout=900, workers=4,
                                                        env=JVM_SHORT)))
     return pool, jobs
@@ -277,8 +290,8 @@ def join_model(ctx, pool, jobs):
     return summary
 
 
-def go_replay(ctx, path, tag="replay", timeout=1500):
-    return lib.run_go(ctx, "server", "TestVerifX02Replay", env={"VERIF_IN": path, "GOGC": "400"}, timeout=7200 if timeout < 7200 else timeout, tag=tag,
+def go_replay(ctx, path, tag="replay", timeout=1500, firstbytes=True):
+    return lib.run_go(ctx, "server", "TestVerifX02Replay", env={"VERIF_IN": path, "GOGC": "400", "X02_FIRSTBYTES": "1" if firstbytes else "0"}, timeout=7200 if timeout < 7200 else timeout, tag=tag,
                       harness_dirs=["server"], extra_args=["-v"])
 
 
@@ -289,7 +302,8 @@ def judge(ctx, res, expect_n=None):
         else:
             raise lib.Inconclusive("driver reported an unknown key %r" % v.get("key"))
     stats = res.get("stats", {})
-    if ctx.violations:
+    known = {k.get("key") for k in lib.load_known() if k.get("property") == ctx.pid}
+    if [v for v in ctx.violations if v.get("key") not in known]:
         return stats
     if res.get("_died") or not res.get("complete", False):
         raise lib.Inconclusive("replay driver died (rc=%s) while running %s\n%s" % (
@@ -353,8 +367,9 @@ def run(ctx):
             ctx.violations.append(v)
     ustats = udp.get("stats", {})
     res = gofut.result()
-    stats = judge(ctx, res, expect_n=len(uniq))
-    if not ctx.violations:
+    stats = judge(ctx, res, expect_n=len(uniq) + 1)    # + the first-bytes scenario (known finding D23)
+    known = {k.get("key") for k in lib.load_known() if k.get("property") == ctx.pid}
+    if not [v for v in ctx.violations if v.get("key") not in known]:
         if udp.get("_died") or not udp.get("complete", False):
             raise lib.Inconclusive("UDP scenario driver died: %s" % udp.get("_stdout_tail"))
         if ustats.get("diverged", 0):
@@ -365,10 +380,12 @@ def run(ctx):
     probe_stats = None
     if probefut is not None:
         try:
-            probe_stats = probefut.result().get("stats", {})
-            ctx.log("udp StaleDelete probe: %s" % probe_stats)
+            pr = probefut.result()
+            probe_stats = pr.get("stats", {})
+            ctx.violations += [v for v in pr.get("violations", []) if v.get("key") in KEYS]
+            ctx.log("udp probe without hook: %s" % probe_stats)
         except lib.Inconclusive as e:
-            ctx.notes.append("StaleDelete probe did not finish: %s" % str(e)[:200])
+            ctx.notes.append("UDP probe without hook did not finish: %s" % str(e)[:200])
     ctx.log("replay: %d behaviours, %d steps, diverged %d, violations %d" % (
         res.get("evaluations", 0), stats.get("steps", 0), stats.get("diverged", 0), len(res.get("violations", []))))
     if only_replay:
@@ -391,6 +408,16 @@ def replay(ctx, path):
     try:
         obj = json.loads(txt)
         rep = obj.get("replay", obj)
+        if isinstance(rep, dict) and str(rep.get("scenario", "")).startswith("first-bytes"):
+            inp = os.path.join(ctx.work, "replay.ndjson")
+            lib.write_lines(inp, [])
+            open(inp + ".ready", "w").close()
+            res = go_replay(ctx, inp, tag="replay_file")
+            for v in res.get("violations", []):
+                print("REPLAY-RESULT violation key=%s what=%s" % (v.get("key"), v.get("what")), flush=True)
+            judge(ctx, res)
+            return lib.finish(ctx, LEVEL, {"evaluations": res.get("evaluations", 0), "distinct_nontrivial": res.get("distinct_nontrivial", 0),
+                                           "rule": "first-bytes scenario re-run", "samples": [], "traces_validated_against_impl": 1, "exhaustive": False}, ASSUME)
         if not isinstance(rep, dict) or not ("behaviour" in rep or "steps" in rep):
             # findings of the real-time UDP scenarios carry no behaviour: the scenarios are fixed, re-run them
             udp = lib.run_go(ctx, "client", "TestVerifX02UDP", timeout=1200, harness_dirs=["client"], tag="udp", extra_args=["-v"])
@@ -406,7 +433,7 @@ def replay(ctx, path):
     inp = os.path.join(ctx.work, "replay.ndjson")
     lib.write_lines(inp, behaviours)
     open(inp + ".ready", "w").close()
-    res = go_replay(ctx, inp, tag="replay_file")
+    res = go_replay(ctx, inp, tag="replay_file", firstbytes=False)
     for v in res.get("violations", []):
         print("REPLAY-RESULT violation key=%s what=%s" % (v.get("key"), v.get("what")), flush=True)
     for n in res.get("notes", []) or []:
